@@ -25,10 +25,7 @@ func storeKindFor(r *Rng) string {
 
 // soleSkipOrRej reports whether b would get the "skip or reject" verdict (an
 // over-long identity CID with identity storage off), which must not share a batch.
-func soleSkipOrRej(cfg Config, s BlkSpec) bool {
-	b := MakeBlock(s)
-	return IsIdentity(b.Cid) && !cfg.StoreID && len(b.Cid.Bytes()) > cfg.EffMaxIdxCid()
-}
+func soleSkipOrRej(cfg Config, s BlkSpec) bool { return false }
 
 func genBatch(r *Rng, cfg Config, alpha []BlkSpec, max int) []BlkSpec {
 	n := r.Range(1, max)
